@@ -13,6 +13,7 @@ ap.add_argument("prop")
 ap.add_argument("--also", default="")
 ap.add_argument("--tier", default="quick")
 ap.add_argument("--only", default="")
+ap.add_argument("--prefix", default="", help="name prefix inside seeded/, e.g. r2")
 a = ap.parse_args()
 verif = os.path.dirname(os.path.dirname(os.path.abspath(__file__)))
 PY = "/venv/bin/python"
@@ -29,7 +30,7 @@ for diff in sorted(glob.glob(os.path.join(a.src, "m*.diff"))):
     demo = os.path.join(a.src, f"{name}_demo.py")
     note = os.path.join(a.src, f"{name}.md")
     tmp = tempfile.mkdtemp(prefix="vseed-")
-    meta = {"property": a.prop, "name": name, "source": "independent sub-agent (saw only the property text and a scratch worktree)"}
+    meta = {"property": a.prop, "name": a.prefix + name, "source": "independent sub-agent (saw only the property text and a scratch worktree)"}
     try:
         clean = os.path.join(tmp, "clean")
         mut = os.path.join(tmp, "mut")
@@ -72,7 +73,7 @@ for diff in sorted(glob.glob(os.path.join(a.src, "m*.diff"))):
         print(f"{a.prop} {name}: confirmed={meta['confirmed']} tests={meta['tests_with_change']!r} demo_fail={meta['demo_fails_with_change']} "
               f"demo_clean_ok={meta['demo_passes_without']} -> " + ", ".join(f"{p}:{v['verdict']}" for p, v in results.items()))
         if confirmed:
-            dst = os.path.join(verif, "seeded", f"{a.prop}-{name}")
+            dst = os.path.join(verif, "seeded", f"{a.prop}-{a.prefix}{name}")
             os.makedirs(dst, exist_ok=True)
             shutil.copy(diff, os.path.join(dst, "patch.diff"))
             shutil.copy(demo, os.path.join(dst, "demo.py"))
